@@ -15,7 +15,7 @@ EXTENDS Strategy, Json, IOUtils
 MaxPairs == atoi(IOEnv.MAXPAIRS)
 MaxEntries == atoi(IOEnv.MAXENTRIES)
 
-\* two games: names are shared between the players on purpose
+\* three games: names are shared between the players on purpose
 Games == <<
   << [multi |-> << [name |-> "m1", acts |-> <<"a1", "a2">>] >>,
       single |-> << [name |-> "s1", act |-> "only"] >>],
@@ -24,7 +24,12 @@ Games == <<
   << [multi |-> << [name |-> "m1", acts |-> <<"a1", "a2">>], [name |-> "m2", acts |-> <<"a1", "a2">>] >>,
       single |-> <<>>],
      [multi |-> <<>>,
-      single |-> << [name |-> "s1", act |-> "only"] >>] >>
+      single |-> << [name |-> "s1", act |-> "only"] >>] >>,
+  \* a player who never moves: whatever is listed for that player names no infoset of theirs
+  << [multi |-> << [name |-> "m1", acts |-> <<"a1", "a2">>] >>,
+      single |-> <<>>],
+     [multi |-> <<>>,
+      single |-> <<>>] >>
 >>
 
 Slim == IOEnv.SLIM = "1"
@@ -55,8 +60,9 @@ NumPairs == SumSeq([n \in 1..Len(lists[cur]) |-> Len(lists[cur][n].acts)])
 NumEntries == Len(lists[cur])
 
 Init == /\ g \in 1..Len(Games)
-        /\ scale \in IF Slim THEN {"one", "max"} \cup (IF g = 1 THEN {"near-third"} ELSE {"tiny"})
-                               ELSE {"one", "tiny", "huge", "max", "near-half", "near-third"}
+        /\ scale \in IF g = 3 THEN {"one"}
+                     ELSE IF Slim THEN {"one", "max"} \cup (IF g = 1 THEN {"near-third"} ELSE {"tiny"})
+                     ELSE {"one", "tiny", "huge", "max", "near-half", "near-third"}
         /\ cur \in 1..2
         /\ \E other \in OtherChoices(Games[g][3 - cur]) :
               lists = [q \in 1..2 |-> IF q = cur THEN <<>> ELSE other]
